@@ -158,7 +158,7 @@ func (lk *vfLink) checkWire() {
 }
 
 // C01/C02 end to end: cipher x FEC x stream/message mode x read-buffer size, the first K (quick 2,
-// thorough 4) client->server datagrams and the first 1 (2) server->client datagrams get every fate; afterwards
+// thorough 3) client->server datagrams and the first 1 (2) server->client datagrams get every fate; afterwards
 // the network is fair. The reader sees a prefix at every step, everything arrives intact, the
 // sender's backlog drains.
 func vfH_C01_session_link() {
@@ -169,7 +169,7 @@ func vfH_C01_session_link() {
 	lk.rlen = []int{1, 16}[vfPick("rlen", 0, 1)]
 	K, Ks := 2, 1
 	if vfTier() > 0 {
-		K, Ks = 4, 2
+		K, Ks = 3, 2
 	}
 	lk.faultsC, lk.faultsS = K, Ks
 	lk.write("w0", 2)
